@@ -47,7 +47,7 @@ RULE = ("Hypothesis-generated dataset specs (features x sizes x writer history x
         "is non-trivial when the checked file went through >= 2 chained dclab write "
         "paths (closure/defect) or carries two applied corruptions (corrupt); "
         "distinct = sha1 of the canonical JSON spec")
-BUDGET = {"quick": 480, "thorough": 8000}
+BUDGET = {"quick": 400, "thorough": 8000}
 ESSENTIAL = [
     "mode:closure", "mode:defect", "mode:corrupt", "chain>=2", "paired",
     "op:compress", "op:repack", "op:condense", "op:export", "op:export_filtered",
@@ -274,7 +274,7 @@ def enumerate_cases(tier):
     for a in range(5):
         for t in (full, noidx, mini):
             out.append(_case(t, corrupt=[cor("bad_index", a, a + 1)]))
-    for a in range(3):
+    for a in range(4):
         for b in range(4):
             out.append(_case(full, corrupt=[cor("fl_chan", a, b)]))
     for a in range(4):
@@ -306,6 +306,17 @@ def enumerate_cases(tier):
         out.append(_case(t, mode="closure", ops=[("compress", 0)]))
         out.append(_case(dict(t, route="dict", contour=False, trace=None),
                          mode="closure", ops=[("repack", 0)]))
+    # channel count completed by the writer for every channel combination
+    for fl in ((3,), (1, 3), (2, 3), (1, 2, 3)):
+        out.append(_case(dict(_template(fl=fl), auto="omit"), mode="closure",
+                         ops=[("export", 1)]))
+    # alerts with and without a metadata section in one file (long log line,
+    # optional keys missing), violations likewise (paired corruption)
+    out.append(_case(dict(noidx, full=False, log=1), mode="closure",
+                     ops=[("compress", 0)]))
+    out.append(_case(dict(full, full=False, log=2), mode="closure"))
+    out.append(_case(mini, corrupt=[cor("len_feat", 0, 1, 1), cor("nonpos", 2, 0)]))
+    out.append(_case(full, corrupt=[cor("unknown", 0, 2), cor("del_meta", 5, 1)]))
     # dclab-produced files with one missing mandatory key / non-positive value
     for a in range(22):
         out.append(_case(full if a % 2 else noidx, mode="defect",
@@ -925,7 +936,17 @@ def _apply_corruption(h5, c, d, touched, info):
         key = "fluorescence:channel count"
         if key not in h5.attrs:
             return None
-        if a % 3 == 0 and chans:
+        if a % 4 == 2 and len(chans) >= 2:
+            # the data lose a channel the metadata still announce (with a single
+            # channel the file would stop being a fluorescence file)
+            ch = chans[b % len(chans)]
+            if f"attr:{key}" in touched or not claim(f"ds:fl{ch}_max"):
+                return None
+            touched.add(f"attr:{key}")
+            touched.add(f"attr:fluorescence:channel {ch} name")
+            del ev[f"fl{ch}_max"]
+            how = "flmax-deleted"
+        elif a % 4 == 0 and chans:
             ch = chans[b % len(chans)]
             nk = f"fluorescence:channel {ch} name"
             if f"attr:{key}" in touched:
